@@ -157,7 +157,7 @@ def chain_witness(seed, links, final_signer, fields, fl='00', chain='x', markers
         parts = [sigpush]
         rc = list(reversed(certs))
         for i, cbytes in enumerate(rc):
-            parts.append(op('TRUE') if markers[i] else op('FALSE'))
+            parts.append(P(markers[i]) if type(markers[i]) is bytes else op('TRUE') if markers[i] else op('FALSE'))
             parts.append(P(cbytes))
         w = b''.join(parts)
     return w
@@ -272,6 +272,17 @@ def splice_case(ctx, n):
         want = markers == honest
         judge(ctx, [w, lock], cache, want, {'lock': 'delegate_key_chain_lock', 'deviation': 'marker pattern'},
               f'chain {n}: markers {markers}', t)
+    # hand-made multi-byte markers cannot make a certificate that forbids further delegation pass as a non-final link
+    if n >= 2:
+        for bad_at in range(n - 1):
+            links = [(s_, d_, b_, e_, (c_ if i != bad_at else False)) for i, (s_, d_, b_, e_, c_) in enumerate(good)]
+            for mk in (b'\xff\xff', b'\x00\xff', b'\x00\x01', b'\x01\x01\x01\x01', b'\xff\x00', b'\xff' * 33):
+                cnt += 1
+                markers = tuple([False] + [mk] * (n - 1))
+                w = chain_witness(seed, links, 'd%d' % n, fields, markers=markers)
+                ctx.state(('wide-markers', n, bad_at, mk))
+                judge(ctx, [w, lock], cache, False, {'lock': 'delegate_key_chain_lock', 'deviation': 'multi-byte marker over a non-delegable link'},
+                      f'chain {n}: link {bad_at} forbids delegation, markers {mk.hex()}', t)
     # a chain that is a proper prefix: final signature by an intermediate delegate with fewer certificates
     for m in range(1, n):
         cnt += 1
@@ -322,6 +333,28 @@ def threshold_case(ctx, case):
             ctx.violation({'lock': 'delegate_key_lock' if n == 0 else 'delegate_key_chain_lock', 'clause': 'verifier slack threshold',
                            'oracle': 'reference interpreter'}, f'chain length {n} ts_threshold={thr} t-now={t - now}: {r.detail[:300]}')
     ctx.evaluations += cnt - 1
+
+
+def zero_ts_case(ctx, case):
+    """execution timestamp 0 (the lowest one there is) is a timestamp like any other, for the single and the chain lock"""
+    now, (b, e) = case
+    seed = ctx.seed
+    sk, pk = keys(seed)
+    fields = sf(seed)
+    t = 0
+    env.Clock.now = now
+    want = b <= t < e and t - now < THR
+    n = 0
+    c1 = cert(seed, 'x', 'root', 'd1', b, e, True)
+    for name, lock, w in (('delegate_key_lock', T.make_delegate_key_lock(pk['root']).bytes,
+                           T.make_delegate_key_witness(sk['d1'], c1, dict(fields)).bytes),
+                          ('delegate_key_chain_lock', T.make_delegate_key_chain_lock(pk['root']).bytes,
+                           T.make_delegate_key_chain_witness(sk['d1'], [c1], dict(fields)).bytes)):
+        n += 1
+        ctx.state(('zero-ts', now, b, e, name))
+        judge(ctx, [w, lock], {**fields, 'timestamp': t}, want, {'lock': name, 'block': 'timestamp zero'},
+              f'window [{b}, {e}) at t=0 with the clock at {now}', now)
+    ctx.evaluations += n - 1
 
 
 # ---------------------------------------------------------------- certificate serialisation
@@ -408,6 +441,8 @@ def blocks(tier, seed):
         Block('custom_slack_threshold', [(n, thr) for n in range(0, 4 if q else 6) for thr in (10, 300, 61, 0, -1)], threshold_case,
               'single and chain locks (length 1..%d) through run_script with additional_flags ts_threshold in {10, 61, 300, 0, -1} x clock '
               'positions around it' % (3 if q else 5), nshards=32),
+        Block('timestamp_zero', [(now, w) for now in (0, 30, 1000, TNOW) for w in ((0, 1000), (0, 1), (1, 1000), (0, 0), (TNOW - 100, TNOW + 100))],
+              zero_ts_case, 'execution timestamp 0 x clock {0, 30, 1000, now} x five windows, single and chain lock', nshards=20),
         Block('certificate_serialisation', VALS, cert_case, 'begin x end over boundary values x flag x key patterns; issued certificates with one field edited afterwards', nshards=len(VALS)),
     ]
 
